@@ -1,6 +1,7 @@
 SPECIFICATION Spec
 CONSTANTS
   Mode = "laws"
+  Lite = TRUE
   Returns = FALSE
   Groups = {2}
 INVARIANT Laws
